@@ -6,11 +6,17 @@ pub mod c01;
 pub mod c02;
 pub mod c03;
 pub mod c04;
+pub mod c05;
+pub mod c06;
 pub mod c07;
 pub mod c08;
 pub mod c09;
 pub mod c12;
+pub mod c14;
 pub mod c15;
+pub mod c16;
+pub mod c18;
+pub mod valfam;
 pub mod memfam;
 pub mod ench;
 pub mod c10;
@@ -23,7 +29,12 @@ pub fn run(ctx: &Ctx) -> i32 {
         "C03" => c03::run(ctx),
         "C04" => c04::run(ctx),
         "C12" => c12::run(ctx),
+        "C14" => c14::run(ctx),
         "C15" => c15::run(ctx),
+        "C16" => c16::run(ctx),
+        "C18" => c18::run(ctx),
+        "C05" => c05::run(ctx),
+        "C06" => c06::run(ctx),
         "C07" => c07::run(ctx),
         "C08" => c08::run(ctx),
         "C09" => c09::run(ctx),
@@ -59,7 +70,12 @@ pub fn replay(path: &str) -> i32 {
         "C03" => c03::replay(&case),
         "C04" => c04::replay(&case),
         "C12" => c12::replay(&case),
+        "C14" => c14::replay(&case),
         "C15" => c15::replay(&case),
+        "C16" => c16::replay(&case),
+        "C18" => c18::replay(&case),
+        "C05" => c05::replay(&case),
+        "C06" => c06::replay(&case),
         "C07" => c07::replay(&case),
         "C08" => c08::replay(&case),
         "C09" => c09::replay(&case),
